@@ -103,7 +103,7 @@ pub fn run(args: &[Val]) -> Val {
         let wd = std::thread::spawn(move || {
             let t0 = Instant::now();
             while !wd_done.load(Ordering::SeqCst) {
-                if t0.elapsed() > Duration::from_millis(700) {
+                if t0.elapsed() > Duration::from_millis(2500) {
                     wd_blocked.store(true, Ordering::SeqCst);
                     let _ = wd_sock.shutdown(std::net::Shutdown::Both);
                     return;
